@@ -42,7 +42,13 @@ def _merge_job(args):
         prog = program(repo)
         mf = MergeFlow(prog, cname, envelope_only=envelope_only)
         mf.run()
-        return {'class': cname, 'ok': True, 'findings': [finding_dict(f) for f in mf.findings.values()],
+        refusal = None
+        if not envelope_only and len(mf.guard_tags) == 1:
+            try:
+                refusal = MergeFlow(prog, cname).run_refusal(sorted(mf.guard_tags)[0])
+            except AnalysisError as e:
+                refusal = [{'result': 'analysis-error', 'msg': str(e)}]
+        return {'class': cname, 'ok': True, 'refusal': refusal, 'findings': [finding_dict(f) for f in mf.findings.values()],
                 'sites': {k: sorted(v) for k, v in mf.sites.items()}, 'outcomes': mf.outcomes,
                 'notes': mf.notes, 'stats': mf.stats, 'functions': sorted(mf.functions_entered),
                 'summaries': {q: s.as_dict() for q, s in mf.summaries.items()}, 'wall': time.time() - t0,
